@@ -76,8 +76,72 @@ pub fn pipeline(addr: std::net::SocketAddr, reqs: &[crate::families::c03_common:
     Some(out)
 }
 
+/// A peer that stalls in the middle of a frame for longer than the server's read timeout and
+/// then carries on as if nothing had happened. The rest of that frame is (on purpose) a
+/// complete, valid frame for a registered route: a server that forgets it was in mid-frame
+/// would dispatch it. Whatever the server does about the timeout, nothing may be answered
+/// that was not asked as a whole frame, in order.
+fn c03_midframe_stall(case: &Case) {
+    net::set_config(simkernel::net::NetConfig { capacity: 1 << 20, lat_min: 0, lat_max: 0, max_segment: 0 });
+    let counters = Arc::new(Counters::default());
+    let router = build_router(&counters, 0, true);
+    let listener = TcpListener::bind("127.0.0.1:0").unwrap();
+    let addr = listener.local_addr().unwrap();
+    let timeout_ms = pick(&[20u64, 50]);
+    let stall_ms = pick(&[timeout_ms * 3 / 2, timeout_ms * 4]);
+    let before = range(0, 3) as u64;
+    case.sample(json!({"scenario": "peer stalls mid-frame past the read timeout", "read_timeout_ms": timeout_ms, "stall_ms": stall_ms, "whole_requests_before": before}));
+    let server = thread::spawn(move || {
+        let _ = Server::new(router).read_timeout(Some(Duration::from_millis(timeout_ms))).serve(listener);
+    });
+    let Ok(mut s) = TcpStream::connect(addr) else {
+        case.harness_error("connect failed");
+        return;
+    };
+    let mut r = s.try_clone().unwrap();
+    r.set_read_timeout(Some(Duration::from_millis(stall_ms + 500))).ok();
+    let mut sent_whole: Vec<u64> = Vec::new();
+    for k in 0..before {
+        let f = Frame::new(10 + k, b"/custom/plain", b"{\"k\":1}").with_formats(1, 2);
+        let _ = write_all_retry(&mut s, &f.encode());
+        sent_whole.push(10 + k);
+    }
+    // the straddling request: its body is 5 filler bytes followed by a complete frame
+    let stowed = Frame::new(99, b"/custom/plain", b"{\"stowed\":true}").with_formats(1, 2).encode();
+    let body = [b"12345".to_vec(), stowed].concat();
+    let big = Frame::new(50, b"/custom/plain", &body).with_formats(1, 0).encode();
+    let cut = 48 + "/custom/plain".len() + 5;
+    let _ = write_all_retry(&mut s, &big[..cut]);
+    thread::sleep(Duration::from_millis(stall_ms));
+    simkernel::count("fault.peer_stalled_mid_frame_past_the_read_timeout");
+    let _ = write_all_retry(&mut s, &big[cut..]);
+    let after = Frame::new(60, b"/custom/plain", b"{\"k\":2}").with_formats(1, 2);
+    let _ = write_all_retry(&mut s, &after.encode());
+    let mut got: Vec<u64> = Vec::new();
+    while let Ok(Some(f)) = read_frame(&mut r) {
+        got.push(f.id);
+    }
+    // allowed: the whole requests before (in order); then either nothing more (connection
+    // dropped at the timeout) or, had the timeout not fired, 50 and 60 in order
+    let mut ok_a = sent_whole.clone();
+    let is_prefix = |g: &Vec<u64>, of: &Vec<u64>| g.len() <= of.len() && of[..g.len()] == g[..];
+    let with_rest = {
+        ok_a.extend([50, 60]);
+        ok_a
+    };
+    case.check(is_prefix(&got, &with_rest), "response-sequence", || format!("blocking Server, peer stalled {stall_ms} ms in mid-frame (read timeout {timeout_ms} ms): response ids {got:?}; whole requests were {with_rest:?} (99 is a frame stowed inside the body of 50)"));
+    case.check(!got.contains(&99), "handler-invocations", || "a frame that was only ever the *body* of another request was dispatched and answered".into());
+    case.nontrivial();
+    drop(s);
+    net::shutdown_all();
+    server.join().ok();
+}
+
 fn c03_server(case: &Case) {
     net::reset(draw_net());
+    if simkernel::choose(10) == 0 {
+        return c03_midframe_stall(case);
+    }
     let counters = Arc::new(Counters::default());
     let n_mw = range(0, 2);
     let router = build_router(&counters, n_mw, simkernel::choose(2) == 0);
@@ -147,7 +211,7 @@ fn c05_server(case: &Case) {
     let writer = thread::spawn(move || {
         for (i, len) in sz.iter().enumerate() {
             let id = i as u64 + 1;
-            let f = Frame::new(id, if simkernel::choose(3) == 0 { &b"/custom/ownecho"[..] } else { &b"/custom/plain"[..] }, &pattern(id, *len));
+            let f = Frame::new(id, match simkernel::choose(6) { 0 | 1 => &b"/custom/ownecho"[..], 2 => &b"/custom/plainoff"[..], 3 => &b"/custom/pushy"[..], _ => &b"/custom/plain"[..] }, &pattern(id, *len));
             if write_all_retry(&mut w, &f.encode()).is_err() {
                 return;
             }
